@@ -326,7 +326,10 @@ def check_plan(ctx, plan):
             if data == "":
                 if sd_post != before:
                     delta = sd_post
-                    rep.viol("file_vs_string", "C09:Dump:string_without_file", "%s: the dump file sink received nothing but the dump string changed: %s" % (where, first_diff(before, sd_post)))
+                    key = "C09:Dump:string_without_file"
+                    if faulted and f["stream"] == "Dump" and f["kind"] == "open_fail" and f["run"] < ri:
+                        key += ":after_failed_dump_open"
+                    rep.viol("file_vs_string", key, "%s: the dump file sink received nothing but the dump string changed: %s" % (where, first_diff(before, sd_post)))
             else:
                 want = (before + data) if append else data
                 delta = data
